@@ -138,6 +138,7 @@ def gen_cfg(rnd, explainer, exact, allow_discontinuous=False):
         "label_keys": rnd.choice(["int", "int", "str"]),                                     # keys of multi-label outputs
         "x_type": rnd.choice(["dict", "dict", "OrderedDict", "subclass", "Counter"]),                   # observations as dict subclasses
         "memo_model": rnd.random() < 0.25,
+        "positional_call": rnd.random() < 0.3,       # optional arguments passed POSITIONALLY in the documented order (x_i, y_i, n_inner_samples, update_storage)
         "hoisted": rnd.random() < 0.3,               # the caller keeps `f = explainer.explain_one` taken BEFORE the first call and uses it throughout
         "manual_updates": rnd.random() < 0.2,        # the user also feeds the storage through update_storage() between explanations                                                   # model hands out cached dict objects
     }
@@ -304,6 +305,11 @@ class Scenario:
         fn = self._explain if getattr(self, "_explain", None) is not None else self.e.explain_one
         if self.cfg.get("keyword_call"):
             ret = fn(x_i=x, y_i=y, **kw)
+        elif self.cfg.get("positional_call") and kw and set(kw) <= {"n_inner_samples", "update_storage"}:
+            if "update_storage" in kw:
+                ret = fn(x, y, kw.get("n_inner_samples"), kw["update_storage"])
+            else:
+                ret = fn(x, y, kw["n_inner_samples"])
         else:
             ret = fn(x, y, **kw)
         self.t += 1
